@@ -170,7 +170,9 @@ def main():
                     "expected": doc.get("violation"),
                 }
             )
-        except (HarnessError, Unsupported) as e:
+        except Unsupported as e:
+            emit({"r": doc.get("run", -1), "digest": None, "violation": None, "expected": doc.get("violation"), "set_aside": str(e)[:300]})
+        except HarnessError as e:
             emit({"r": -1, "harness_error": str(e)[-3000:]})
         return
 
